@@ -355,6 +355,8 @@ class Runner:
                       "missing": str(self.world / "fs/nope")}
         self.cfgroute_tmpl = self.world / "structname.templ"
         self.cfgroute_tmpl.write_text("{{ (index .Interfaces 0).StructName }}")
+        self.cfgroute_pkg = self.world / "pkgname.templ"
+        self.cfgroute_pkg.write_text("{{ .PkgName }}")
         self.n = 0
         self.lock = threading.Lock()
         self.runs = 0
@@ -369,15 +371,36 @@ class Runner:
         with self.lock:
             self.runs += 1
         t = time.time()
+        env = dict(self.env, VERIFHOOK_TRACE=str(Path(cfgpath).parent / "hook.ndjson"))
         try:
-            p = subprocess.run([self.bin, "--config", str(cfgpath)], cwd=self.world, env=self.env, capture_output=True,
+            p = subprocess.run([self.bin, "--config", str(cfgpath)], cwd=self.world, env=env, capture_output=True,
                                timeout=timeout)
             return vlib.RunResult(p.returncode, p.stdout.decode("utf8", "replace"), p.stderr.decode("utf8", "replace"),
                                   time.time() - t, False, [])
         except subprocess.TimeoutExpired as ex:
             return vlib.RunResult(-9, "", (ex.stderr or b"").decode("utf8", "replace"), time.time() - t, True, [])
 
-    def _materialise(self, route, lines):
+    CFG_PARAMS = ("structname", "pkgname", "template-schema")     # templated config values that never touch the file system
+
+    def _output(self, d, param):
+        """What the probe printed: the mock template's output file, or -- for template-schema, which the data model
+        does not expose -- the resolved value from the Resolved hook event."""
+        if param == "template-schema":
+            tf = d / "hook.ndjson"
+            if not tf.exists():
+                return None
+            for ln in tf.read_text(errors="surrogateescape").splitlines():
+                try:
+                    e = json.loads(ln)
+                except ValueError:
+                    continue
+                if e.get("ev") == "Resolved":
+                    return e.get("schema", "").encode("utf8", "surrogateescape")
+            return None
+        out = d / "out" / "out.txt"
+        return out.read_bytes() if out.exists() else None
+
+    def _materialise(self, route, lines, param="structname"):
         k = self._next()
         d = self.world / f"b{k}"
         d.mkdir()
@@ -389,15 +412,15 @@ class Runner:
             (d / "probe.templ").write_text(body)
             conf["template"] = "file://" + str(d / "probe.templ")
         else:
-            conf["template"] = "file://" + str(self.cfgroute_tmpl)
-            conf["structname"] = body
+            conf["template"] = "file://" + str(self.cfgroute_pkg if param == "pkgname" else self.cfgroute_tmpl)
+            conf[param] = body
         (d / "cfg.yml").write_text(json.dumps(conf))
         return d
 
     LINE_RE = re.compile(r"template: [^\s\"]*?:(\d+):(\d+): executing .*? at <(.*?)>: (.*)")
     PARSE_RE = re.compile(r"template: [^\s\"]*?:(\d+): (function \\?\"(\w+)\\?\" not defined|.*)")
 
-    def eval_batch(self, route, cases, max_err=40):
+    def eval_batch(self, route, cases, max_err=40, param="structname"):
         """Returns {case.i: canonical real value}.  An error is a value: ('err', msg)."""
         res = {}
         live = list(cases)
@@ -408,14 +431,14 @@ class Runner:
         errs = 0
         per_fn = {}
         while True:
-            d = self._materialise(route, lines)
+            d = self._materialise(route, lines, param)
             r = self._run(d / "cfg.yml")
-            out = d / "out" / "out.txt"
             if r.timed_out and len(live) == 1:
                 r = self._run(d / "cfg.yml", timeout=600)      # a loaded machine is not a hang
-            if r.code == 0 and not r.panicked and out.exists():
+            outb = self._output(d, param if route == "config" else None) if r.code == 0 and not r.panicked else None
+            if outb is not None:
                 got = {}
-                for ln in out.read_bytes().split(b"\n"):
+                for ln in outb.split(b"\n"):
                     if b"\t" not in ln:
                         continue
                     ident, raw = ln.split(b"\t", 1)
@@ -435,8 +458,8 @@ class Runner:
                 h = len(live) // 2
                 with self.lock:
                     self.reruns += 1
-                res.update(self.eval_batch(route, live[:h], max_err))
-                res.update(self.eval_batch(route, live[h:], max_err))
+                res.update(self.eval_batch(route, live[:h], max_err, param))
+                res.update(self.eval_batch(route, live[h:], max_err, param))
                 return res
             m = self.LINE_RE.search(text)
             if len(live) == 1 and (m or "template" in text):
@@ -565,9 +588,15 @@ class Runner:
 
     def eval_all(self, route, cases, batch, workers=8):
         batches = [cases[i:i + batch] for i in range(0, len(cases), batch)]
+        # the config route rotates over the templated parameters batch by batch
+        params = [self.CFG_PARAMS[k % 3] if route == "config" else "structname" for k in range(len(batches))]
+        if route == "config":
+            for b, prm in zip(batches, params):
+                for c in b:
+                    c.sp["cfgparam"] = prm
         res = {}
         with cf.ThreadPoolExecutor(max_workers=workers) as ex:
-            for part in ex.map(lambda b: self.eval_batch(route, b), batches):
+            for part in ex.map(lambda bp: self.eval_batch(route, bp[0], param=bp[1]), zip(batches, params)):
                 res.update(part)
         return res
 
@@ -1009,7 +1038,15 @@ def run(ctx):
             c.sp["template"] = ctx.rng.choices(("lit", "pipe", "typed", "var"), (55, 15, 15, 15))[0]
             c.sp["config"] = ctx.rng.choices(("lit", "pipe", "typed", "var"), (40, 20, 20, 20))[0]
     t0 = time.time()
-    realA = runner.eval_all("template", safe + extras, bsz)
+    # composition: f(f(x)) for the case converters (judged by ShapeOK through the op log)
+    twins = {}
+    tid = 20_000_000
+    for c in safe + extras:
+        if c.fn in ("camelcase", "snakecase", "kebabcase") and c.args[0]["t"] == "s":
+            tid += 1
+            twins[c.i] = Case(tid, c.fn, [{"t": "raw", "v": "(%s %s)" % (c.fn, go_lit(c.args[0]["v"]))}], {"t": "total"}, "total", False,
+                              origin="twice")
+    realA = runner.eval_all("template", safe + extras + list(twins.values()), bsz)
     if not thorough and len(risk) > 160:   # quick: seeded sample of the one-run-per-application cases
         keep = [c for c in risk if c.fn not in ("div", "mod", "matchString")]
         rest = [c for c in risk if c.fn in ("div", "mod", "matchString")]
@@ -1025,6 +1062,7 @@ def run(ctx):
     candB = [c for c in safe + extras if cfg_ok(c)]
     if not thorough:
         candB = candB[:: 3]
+    ctx.rng.shuffle(candB)         # every parameter of the rotation sees every kind of application
     realB = runner.eval_all("config", candB, bsz)
     riskB = [c for c in risk_run if cfg_ok(c)][:: (1 if thorough else 4)]
     realB.update(runner.eval_all("config", riskB, 1))
@@ -1065,10 +1103,13 @@ def run(ctx):
     small = [c for c in safe if cfg_ok(c) and sum(len(a["v"]) if a["t"] in ("s", "l") else 1 for a in c.args) <= 3
              and c.expect["t"] in ("s", "b", "i")]
     ctx_real = {}
-    n_ctx = 120 if thorough else 24
+    n_ctx = 4 if thorough else 1           # applications per function and parameter
+    by_fn_small = {}
+    for c in small:
+        by_fn_small.setdefault(c.fn, []).append(c)
     jobs = []
-    for prm in ("dir", "filename", "pkgname", "template-schema"):
-        pick = ctx.rng.sample(small, min(n_ctx, len(small)))
+    for prm in ("dir", "filename"):        # (structname, pkgname, template-schema share route "config")
+        pick = [c for f in sorted(by_fn_small) for c in ctx.rng.sample(by_fn_small[f], min(n_ctx, len(by_fn_small[f])))]
         jobs += [(prm, pick[k:k + 4]) for k in range(0, len(pick), 4)]
     with cf.ThreadPoolExecutor(max_workers=8) as ex:
         for (prm, part), got in zip(jobs, ex.map(lambda j: runner.eval_context(*j), jobs)):
@@ -1084,6 +1125,8 @@ def run(ctx):
         per_fn_viol[k] = per_fn_viol.get(k, 0) + 1
         if per_fn_viol[k] > VIOL_CAP:
             return
+        if route == "config":
+            route = "config:" + c.sp.get("cfgparam", "structname")
         ctx.violation({"kind": kind, "fn": c.fn, "route": route, "input": input_class(c)},
                       {"application": c.expr(None), "case": {"fn": c.fn, "args": c.args, "expect": c.expect, "oracle": c.oracle, "rot": c.rot},
                        "observed": show(got), "expected": show(want) if want else None, **(more or {}),
@@ -1150,7 +1193,11 @@ def run(ctx):
                 continue
             if any(a["t"] not in ("s", "i", "l") for a in c.args):
                 continue
-            events.append({"fn": c.fn, "args": c.args, "reply": reply_event(got), "route": route})
+            ev = {"fn": c.fn, "args": c.args, "reply": reply_event(got), "route": route}
+            tw = twins.get(c.i)
+            if route == "template" and tw is not None and realA.get(tw.i, ("x",))[0] == "s" and ev["reply"]["t"] == "s":
+                ev["reply"]["again"] = bytes_to_toks(realA[tw.i][1])
+            events.append(ev)
             ev_case.append(c)
     chunk = 2500
     pool = cf.ThreadPoolExecutor(max_workers=4)
@@ -1238,7 +1285,8 @@ def run(ctx):
         "one_per_run_applications": len(risk_run) + len(totals), "one_per_run_skipped_in_quick": len(risk) - len(risk_run),
         "histories_exported_by_tlc": len(live_h), "history_processes": len(groups), "first_applications_with_own_process": min(n_fresh, len(firsts)), "history_steps_judged": n_hist_steps,
         "config_parameter_contexts": {"availability": "44 functions x dir/filename/pkgname/structname/template-schema",
-                                      "evaluations_per_other_parameter": n_ctx},
+                                      "route_config_rotates_over": list(Runner.CFG_PARAMS),
+                                      "dir_and_filename_applications_per_function": n_ctx},
         "spellings": "call / pipeline / typed values / template variable, drawn per application and route",
         "error_values_observed": n_err_values, "non_enumerated_inputs_judged_by_trace_spec": len(extras),
         "totality_only_adversarial_inputs": len(totals), "trace_events": len(events), "trace_rejections": trace_rejects,
